@@ -10,6 +10,7 @@ mod c01;
 mod c02;
 mod c03;
 mod c04;
+mod c05;
 mod c06;
 mod c07;
 mod c08;
@@ -26,6 +27,9 @@ mod c19;
 mod c20;
 
 use engine::*;
+
+#[global_allocator]
+static ALLOC: c05::Counting = c05::Counting;
 use serde_json::Value;
 
 type RunFn = fn(&mut Run) -> Finish;
@@ -37,6 +41,7 @@ fn table() -> Vec<(&'static str, RunFn, RecheckFn)> {
         ("C02", c02::run, c02::recheck),
         ("C03", c03::run, c03::recheck),
         ("C04", c04::run, c04::recheck),
+        ("C05", c05::run, c05::recheck),
         ("C06", c06::run, c06::recheck),
         ("C07", c07::run, c07::recheck),
         ("C08", c08::run, c08::recheck),
